@@ -724,7 +724,9 @@ class ApertureStats:
                 else:
                     # apply the exact weights and total mask;
                     # error_cutout will have zeros where mask_cutout is True
-                    variance = self._error[slc_large]**2
+                    # square as float: an integer error array would
+                    # overflow in its own dtype
+                    variance = self._error[slc_large].astype(float)**2
                     variance_cutout = (variance * aperweight_cutout
                                        * ~mask_cutout)
 
